@@ -95,8 +95,41 @@ theorem lemma_transfer_expect (P : Params) (cfg : Cfg) (s : Src) (l : Leaf) (k :
   simp only [hm]
   rfl
 
+theorem lemma_transfer_frame (f : Frame) (k : Nat) (Init Res init res : Val)
+    (hres : valAt Res (k :: f.path) = valAt res f.path)
+    (hinit : valAt Init (k :: f.path) = valAt init f.path ∨
+      (valAt Init (k :: f.path) = none ∧ (valAt init f.path = none ∨ valAt init f.path = some (zero f.ty))))
+    (h : holdsFrame init res f = true) : holdsFrame Init Res { f with path := k :: f.path } = true := by
+  unfold holdsFrame at h ⊢
+  simp only [hres]
+  rcases hinit with hi | ⟨h1, h2 | h2⟩
+  · simp only [hi]; exact h
+  · simp only [h1]; simp only [h2] at h; exact h
+  · simp only [h1]
+    simp only [h2] at h
+    cases hc : valAt res f.path with
+    | none => simp [hc] at h
+    | some c => simpa [hc] using h
+
+/-- in a zero value the place holds nothing, or the zero value of its own type -/
+def ZeroLikeAt (v : Val) (path : List Nat) (ty : Ty) : Prop := valAt v path = none ∨ valAt v path = some (zero ty)
+
 /-- in a zero value the leaf has nothing, or the zero value of its own type -/
-def ZeroLike (v : Val) (l : Leaf) : Prop := valAt v l.path = none ∨ valAt v l.path = some (zero l.ty)
+def ZeroLike (v : Val) (l : Leaf) : Prop := ZeroLikeAt v l.path l.ty
+
+/-- where an item keeps a value, and of which type (leaves and frames) -/
+def Spec.Item.pathTy : Item → Option (List Nat × Ty)
+  | .leaf l => some (l.path, l.ty)
+  | .frame f => some (f.path, f.ty)
+  | .node _ => none
+
+theorem lemma_pathTy_under (k : Nat) (x : Item) :
+    (x.under k).pathTy = x.pathTy.map (fun pt => (k :: pt.1, pt.2)) := by
+  cases x <;> rfl
+
+theorem lemma_pathTy_below (k : Nat) (name p : Bytes) (x : Item) :
+    (x.below k name p).pathTy = x.pathTy.map (fun pt => (k :: pt.1, pt.2)) := by
+  cases x <;> rfl
 
 theorem lemma_zeroFs_get : ∀ (fs : List Fld) (j : Nat) (h : FieldHdr) (t : Ty),
     fs[j]? = some (h, t) → (zeroFs fs)[j]? = some (zero t)
@@ -108,156 +141,189 @@ theorem lemma_zeroFs_get : ∀ (fs : List Fld) (j : Nat) (h : FieldHdr) (t : Ty)
     simp only [List.getElem?_cons_succ] at hf
     simpa [zeroFs] using lemma_zeroFs_get fs j h t hf
 
+/-- what a single-position item (leaf or frame of field `k`, type `t`) sees -/
+theorem lemma_zero_single (k : Nat) (t : Ty) (x : Item) (pt : List Nat × Ty) (hx : x.pathTy = some pt)
+    (hp : pt = ([k], t)) :
+    ∃ q, pt.1 = k :: q ∧ ∀ vs : List Val, vs[k]? = some (zero t) → ZeroLikeAt (.struct vs) pt.1 pt.2 := by
+  subst hp
+  exact ⟨[], rfl, fun vs hv => Or.inr (lemma_valAt_one vs k _ hv)⟩
+
 mutual
 theorem lemma_zero_fld (tag : Tag) (k : Nat) (h : FieldHdr) :
-    ∀ (t : Ty) (l : Leaf), Item.leaf l ∈ itemsFld tag k h t →
-      ∃ q, l.path = k :: q ∧ ∀ vs : List Val, vs[k]? = some (zero t) → ZeroLike (.struct vs) l
-  | .struct sub, l, hl => by
-    unfold itemsFld at hl
-    split at hl
-    · simp at hl
-    · split at hl
-      · simp only [List.mem_map] at hl
-        obtain ⟨x, hx, hxl⟩ := hl
-        cases x with
-        | node n => simp [Item.under] at hxl
-        | leaf l0 =>
-          simp only [Item.under, Item.leaf.injEq] at hxl
-          subst hxl
-          obtain ⟨j, q, hq, hz⟩ := lemma_zero_fs tag sub 0 l0 hx
-          refine ⟨l0.path, rfl, ?_⟩
+    ∀ (t : Ty) (x : Item), x ∈ itemsFld tag k h t → ∀ pt, x.pathTy = some pt →
+      ∃ q, pt.1 = k :: q ∧ ∀ vs : List Val, vs[k]? = some (zero t) → ZeroLikeAt (.struct vs) pt.1 pt.2
+  | .struct sub, x, hx, pt, hpt => by
+    unfold itemsFld at hx
+    split at hx
+    · simp only [List.mem_singleton] at hx
+      subst hx
+      exact lemma_zero_single k _ _ pt hpt (by simpa [Item.pathTy] using hpt.symm)
+    · split at hx
+      · simp only [List.mem_map] at hx
+        obtain ⟨y, hy, hyx⟩ := hx
+        subst hyx
+        rw [lemma_pathTy_under] at hpt
+        cases hyp : y.pathTy with
+        | none => simp [hyp] at hpt
+        | some pt0 =>
+          simp only [hyp, Option.map_some, Option.some.injEq] at hpt
+          subst hpt
+          obtain ⟨q, hq, ⟨a, r, hne⟩, hz⟩ := lemma_zero_fs tag sub 0 y hy pt0 hyp
+          refine ⟨pt0.1, rfl, ?_⟩
           intro vs hv
           have := hz (zeroFs sub) (fun j => by simp)
-          unfold ZeroLike at this ⊢
-          simp only [Leaf.under]
-          rw [lemma_valAt_cons vs k l0.path _ hv]
+          unfold ZeroLikeAt at this ⊢
+          simp only
+          rw [lemma_valAt_cons vs k pt0.1 _ hv]
           simpa [zero] using this
-      · split at hl
-        · simp at hl
-        · simp only [List.mem_cons, reduceCtorEq, false_or, List.mem_map] at hl
-          obtain ⟨x, hx, hxl⟩ := hl
-          cases x with
-          | node n => simp [Item.below] at hxl
-          | leaf l0 =>
-            simp only [Item.below, Item.leaf.injEq] at hxl
-            subst hxl
-            obtain ⟨j, q, hq, hz⟩ := lemma_zero_fs tag sub 0 l0 hx
-            refine ⟨l0.path, rfl, ?_⟩
-            intro vs hv
-            have := hz (zeroFs sub) (fun j => by simp)
-            unfold ZeroLike at this ⊢
-            simp only [Leaf.below]
-            rw [lemma_valAt_cons vs k l0.path _ hv]
-            simpa [zero] using this
-  | .ptr (.struct sub), l, hl => by
-    unfold itemsFld at hl
-    split at hl
-    · simp at hl
-    · split at hl
-      · simp only [List.mem_map] at hl
-        obtain ⟨x, hx, hxl⟩ := hl
-        cases x with
-        | node n => simp [Item.under] at hxl
-        | leaf l0 =>
-          simp only [Item.under, Item.leaf.injEq] at hxl
-          subst hxl
-          obtain ⟨j, q, hq, hz⟩ := lemma_zero_fs tag sub 0 l0 hx
-          refine ⟨l0.path, rfl, ?_⟩
+      · split at hx
+        · simp only [List.mem_singleton] at hx
+          subst hx
+          exact lemma_zero_single k _ _ pt hpt (by simpa [Item.pathTy] using hpt.symm)
+        · simp only [List.mem_cons, List.mem_map] at hx
+          rcases hx with rfl | ⟨y, hy, hyx⟩
+          · simp [Item.pathTy] at hpt
+          · subst hyx
+            rw [lemma_pathTy_below] at hpt
+            cases hyp : y.pathTy with
+            | none => simp [hyp] at hpt
+            | some pt0 =>
+              simp only [hyp, Option.map_some, Option.some.injEq] at hpt
+              subst hpt
+              obtain ⟨q, hq, ⟨a, r, hne⟩, hz⟩ := lemma_zero_fs tag sub 0 y hy pt0 hyp
+              refine ⟨pt0.1, rfl, ?_⟩
+              intro vs hv
+              have := hz (zeroFs sub) (fun j => by simp)
+              unfold ZeroLikeAt at this ⊢
+              simp only
+              rw [lemma_valAt_cons vs k pt0.1 _ hv]
+              simpa [zero] using this
+  | .ptr (.struct sub), x, hx, pt, hpt => by
+    unfold itemsFld at hx
+    split at hx
+    · simp only [List.mem_singleton] at hx
+      subst hx
+      exact lemma_zero_single k _ _ pt hpt (by simpa [Item.pathTy] using hpt.symm)
+    · split at hx
+      · simp only [List.mem_map] at hx
+        obtain ⟨y, hy, hyx⟩ := hx
+        subst hyx
+        rw [lemma_pathTy_under] at hpt
+        cases hyp : y.pathTy with
+        | none => simp [hyp] at hpt
+        | some pt0 =>
+          simp only [hyp, Option.map_some, Option.some.injEq] at hpt
+          subst hpt
+          obtain ⟨q, hq, ⟨a, r, hne⟩, hz⟩ := lemma_zero_fs tag sub 0 y hy pt0 hyp
+          refine ⟨pt0.1, rfl, ?_⟩
           intro vs hv
           left
-          simp only [Leaf.under]
-          rw [lemma_valAt_cons vs k l0.path _ hv, hq]
+          simp only
+          rw [lemma_valAt_cons vs k pt0.1 _ hv, hq, hne]
           simp [zero, valAt]
-      · split at hl
-        · simp at hl
-        · simp only [List.mem_cons, reduceCtorEq, false_or, List.mem_map] at hl
-          obtain ⟨x, hx, hxl⟩ := hl
-          cases x with
-          | node n => simp [Item.below] at hxl
-          | leaf l0 =>
-            simp only [Item.below, Item.leaf.injEq] at hxl
-            subst hxl
-            obtain ⟨j, q, hq, hz⟩ := lemma_zero_fs tag sub 0 l0 hx
-            refine ⟨l0.path, rfl, ?_⟩
-            intro vs hv
-            left
-            simp only [Leaf.below]
-            rw [lemma_valAt_cons vs k l0.path _ hv, hq]
-            simp [zero, valAt]
-  | .prim p, l, hl => by
-    simp only [itemsFld] at hl
-    split at hl
-    · simp at hl
-    · split at hl
-      · simp at hl
-      · simp only [List.mem_singleton, Item.leaf.injEq] at hl
-        subst hl
-        exact ⟨[], rfl, fun vs hv => Or.inr (lemma_valAt_one vs k _ hv)⟩
-  | .slice e, l, hl => by
-    simp only [itemsFld] at hl
-    split at hl
-    · simp at hl
-    · split at hl
-      · simp at hl
-      · simp only [List.mem_singleton, Item.leaf.injEq] at hl
-        subst hl
-        exact ⟨[], rfl, fun vs hv => Or.inr (lemma_valAt_one vs k _ hv)⟩
-  | .map e, l, hl => by
-    simp only [itemsFld] at hl
-    split at hl
-    · simp at hl
-    · split at hl
-      · simp at hl
-      · simp only [List.mem_singleton, Item.leaf.injEq] at hl
-        subst hl
-        exact ⟨[], rfl, fun vs hv => Or.inr (lemma_valAt_one vs k _ hv)⟩
-  | .ptr (.prim p), l, hl => by
-    simp only [itemsFld] at hl
-    split at hl
-    · simp at hl
-    · split at hl
-      · simp at hl
-      · simp only [List.mem_singleton, Item.leaf.injEq] at hl
-        subst hl
-        exact ⟨[], rfl, fun vs hv => Or.inr (lemma_valAt_one vs k _ hv)⟩
-  | .ptr (.ptr e), l, hl => by
-    simp only [itemsFld] at hl
-    split at hl
-    · simp at hl
-    · split at hl
-      · simp at hl
-      · simp only [List.mem_singleton, Item.leaf.injEq] at hl
-        subst hl
-        exact ⟨[], rfl, fun vs hv => Or.inr (lemma_valAt_one vs k _ hv)⟩
-  | .ptr (.slice e), l, hl => by
-    simp only [itemsFld] at hl
-    split at hl
-    · simp at hl
-    · split at hl
-      · simp at hl
-      · simp only [List.mem_singleton, Item.leaf.injEq] at hl
-        subst hl
-        exact ⟨[], rfl, fun vs hv => Or.inr (lemma_valAt_one vs k _ hv)⟩
-  | .ptr (.map e), l, hl => by
-    simp only [itemsFld] at hl
-    split at hl
-    · simp at hl
-    · split at hl
-      · simp at hl
-      · simp only [List.mem_singleton, Item.leaf.injEq] at hl
-        subst hl
-        exact ⟨[], rfl, fun vs hv => Or.inr (lemma_valAt_one vs k _ hv)⟩
+      · split at hx
+        · simp only [List.mem_singleton] at hx
+          subst hx
+          exact lemma_zero_single k _ _ pt hpt (by simpa [Item.pathTy] using hpt.symm)
+        · simp only [List.mem_cons, List.mem_map] at hx
+          rcases hx with rfl | ⟨y, hy, hyx⟩
+          · simp [Item.pathTy] at hpt
+          · subst hyx
+            rw [lemma_pathTy_below] at hpt
+            cases hyp : y.pathTy with
+            | none => simp [hyp] at hpt
+            | some pt0 =>
+              simp only [hyp, Option.map_some, Option.some.injEq] at hpt
+              subst hpt
+              obtain ⟨q, hq, ⟨a, r, hne⟩, hz⟩ := lemma_zero_fs tag sub 0 y hy pt0 hyp
+              refine ⟨pt0.1, rfl, ?_⟩
+              intro vs hv
+              left
+              simp only
+              rw [lemma_valAt_cons vs k pt0.1 _ hv, hq, hne]
+              simp [zero, valAt]
+  | .prim p, x, hx, pt, hpt => by
+    simp only [itemsFld] at hx
+    split at hx
+    · simp only [List.mem_singleton] at hx; subst hx
+      exact lemma_zero_single k _ _ pt hpt (by simpa [Item.pathTy] using hpt.symm)
+    · split at hx
+      · simp only [List.mem_singleton] at hx; subst hx
+        exact lemma_zero_single k _ _ pt hpt (by simpa [Item.pathTy] using hpt.symm)
+      · simp only [List.mem_singleton] at hx; subst hx
+        exact lemma_zero_single k _ _ pt hpt (by simpa [Item.pathTy] using hpt.symm)
+  | .slice e, x, hx, pt, hpt => by
+    simp only [itemsFld] at hx
+    split at hx
+    · simp only [List.mem_singleton] at hx; subst hx
+      exact lemma_zero_single k _ _ pt hpt (by simpa [Item.pathTy] using hpt.symm)
+    · split at hx
+      · simp only [List.mem_singleton] at hx; subst hx
+        exact lemma_zero_single k _ _ pt hpt (by simpa [Item.pathTy] using hpt.symm)
+      · simp only [List.mem_singleton] at hx; subst hx
+        exact lemma_zero_single k _ _ pt hpt (by simpa [Item.pathTy] using hpt.symm)
+  | .map e, x, hx, pt, hpt => by
+    simp only [itemsFld] at hx
+    split at hx
+    · simp only [List.mem_singleton] at hx; subst hx
+      exact lemma_zero_single k _ _ pt hpt (by simpa [Item.pathTy] using hpt.symm)
+    · split at hx
+      · simp only [List.mem_singleton] at hx; subst hx
+        exact lemma_zero_single k _ _ pt hpt (by simpa [Item.pathTy] using hpt.symm)
+      · simp only [List.mem_singleton] at hx; subst hx
+        exact lemma_zero_single k _ _ pt hpt (by simpa [Item.pathTy] using hpt.symm)
+  | .ptr (.prim p), x, hx, pt, hpt => by
+    simp only [itemsFld] at hx
+    split at hx
+    · simp only [List.mem_singleton] at hx; subst hx
+      exact lemma_zero_single k _ _ pt hpt (by simpa [Item.pathTy] using hpt.symm)
+    · split at hx
+      · simp only [List.mem_singleton] at hx; subst hx
+        exact lemma_zero_single k _ _ pt hpt (by simpa [Item.pathTy] using hpt.symm)
+      · simp only [List.mem_singleton] at hx; subst hx
+        exact lemma_zero_single k _ _ pt hpt (by simpa [Item.pathTy] using hpt.symm)
+  | .ptr (.ptr e), x, hx, pt, hpt => by
+    simp only [itemsFld] at hx
+    split at hx
+    · simp only [List.mem_singleton] at hx; subst hx
+      exact lemma_zero_single k _ _ pt hpt (by simpa [Item.pathTy] using hpt.symm)
+    · split at hx
+      · simp only [List.mem_singleton] at hx; subst hx
+        exact lemma_zero_single k _ _ pt hpt (by simpa [Item.pathTy] using hpt.symm)
+      · simp only [List.mem_singleton] at hx; subst hx
+        exact lemma_zero_single k _ _ pt hpt (by simpa [Item.pathTy] using hpt.symm)
+  | .ptr (.slice e), x, hx, pt, hpt => by
+    simp only [itemsFld] at hx
+    split at hx
+    · simp only [List.mem_singleton] at hx; subst hx
+      exact lemma_zero_single k _ _ pt hpt (by simpa [Item.pathTy] using hpt.symm)
+    · split at hx
+      · simp only [List.mem_singleton] at hx; subst hx
+        exact lemma_zero_single k _ _ pt hpt (by simpa [Item.pathTy] using hpt.symm)
+      · simp only [List.mem_singleton] at hx; subst hx
+        exact lemma_zero_single k _ _ pt hpt (by simpa [Item.pathTy] using hpt.symm)
+  | .ptr (.map e), x, hx, pt, hpt => by
+    simp only [itemsFld] at hx
+    split at hx
+    · simp only [List.mem_singleton] at hx; subst hx
+      exact lemma_zero_single k _ _ pt hpt (by simpa [Item.pathTy] using hpt.symm)
+    · split at hx
+      · simp only [List.mem_singleton] at hx; subst hx
+        exact lemma_zero_single k _ _ pt hpt (by simpa [Item.pathTy] using hpt.symm)
+      · simp only [List.mem_singleton] at hx; subst hx
+        exact lemma_zero_single k _ _ pt hpt (by simpa [Item.pathTy] using hpt.symm)
 theorem lemma_zero_fs (tag : Tag) :
-    ∀ (fs : List Fld) (i : Nat) (l : Leaf), Item.leaf l ∈ itemsFs tag i fs →
-      ∃ j q, l.path = (i + j) :: q ∧ ∀ vs : List Val, (∀ j, vs[i + j]? = (zeroFs fs)[j]?) → ZeroLike (.struct vs) l
-  | [], i, l, hl => by simp [itemsFs] at hl
-  | (h, t) :: rest, i, l, hl => by
-    simp only [itemsFs, List.mem_append] at hl
-    rcases hl with hl | hl
-    · obtain ⟨q, hq, hz⟩ := lemma_zero_fld tag i h t l hl
-      exact ⟨0, q, by simpa using hq, fun vs hv => hz vs (by simpa [zeroFs] using hv 0)⟩
-    · obtain ⟨j, q, hq, hz⟩ := lemma_zero_fs tag rest (i+1) l hl
-      refine ⟨j+1, q, by rw [hq]; congr 1; omega, fun vs hv => hz vs (fun j => ?_)⟩
+    ∀ (fs : List Fld) (i : Nat) (x : Item), x ∈ itemsFs tag i fs → ∀ pt, x.pathTy = some pt →
+      ∃ q, pt.1 = q ∧ (∃ a r, q = a :: r) ∧
+        ∀ vs : List Val, (∀ j, vs[i + j]? = (zeroFs fs)[j]?) → ZeroLikeAt (.struct vs) pt.1 pt.2
+  | [], i, x, hx, _, _ => by simp [itemsFs] at hx
+  | (h, t) :: rest, i, x, hx, pt, hpt => by
+    simp only [itemsFs, List.mem_append] at hx
+    rcases hx with hx | hx
+    · obtain ⟨q, hq, hz⟩ := lemma_zero_fld tag i h t x hx pt hpt
+      exact ⟨pt.1, rfl, ⟨i, q, hq⟩, fun vs hv => hz vs (by simpa [zeroFs] using hv 0)⟩
+    · obtain ⟨q, hq, hne, hz⟩ := lemma_zero_fs tag rest (i+1) x hx pt hpt
+      refine ⟨q, hq, hne, fun vs hv => hz vs (fun j => ?_)⟩
       have := hv (j+1)
       simpa [zeroFs, Nat.add_assoc, Nat.add_comm 1 j] using this
 end
